@@ -139,7 +139,7 @@ def show(t, depth=0):
     if k in ("tuple", "array"):
         return "%s(%s)" % (k, ", ".join(show(a, d) for a in t[1]))
     if k == "local":
-        return "_%d" % t[1]
+        return "_%d" % t[1] if len(t) == 2 else "_%d@%d" % (t[1], t[2])
     if k == "val":
         return show(t[1], d)
     if k == "static":
@@ -381,13 +381,21 @@ class Engine:
 class Frame:
     """One activation: environment + heap for a body on one path."""
 
-    def __init__(self, eng, body, args, depth, policy):
+    def __init__(self, eng, body, args, depth, policy, parent=None):
         self.eng = eng
         self.body = body
         self.depth = depth
         self.policy = policy
         self.env = {}
         self.heap = {}
+        # frame identity: locals of an inlined callee are distinct objects from the caller's locals
+        self.fid = 0 if parent is None else next(eng.ids)
+        self.parent_view = {}
+        if parent is not None:
+            self.parent_view = dict(parent.parent_view)
+            self.parent_view[parent.fid] = parent.env
+        self.foreign_writes = {} if parent is None else dict(parent.foreign_writes)
+        self.envs = {} if parent is None else dict(parent.envs)
         n = body["arg_count"]
         for i in range(1, n + 1):
             if i - 1 < len(args) and args[i - 1] is not None:
@@ -405,12 +413,22 @@ class Frame:
         f.env = dict(self.env)
         f.heap = dict(self.heap)
         f.active_loops = self.active_loops
+        f.fid = self.fid
+        f.parent_view = self.parent_view
+        f.foreign_writes = dict(self.foreign_writes)
+        f.envs = dict(self.envs)
         return f
+
+    def loc(self, n):
+        return ("local", n) if self.fid == 0 else ("local", n, self.fid)
+
+    def _fid_of(self, lv):
+        return lv[2] if len(lv) > 2 else 0
 
     # ----- lvalues -----
     def lv_of(self, place):
         """Return an lvalue term for a MIR place."""
-        cur = ("local", place["l"])
+        cur = self.loc(place["l"])
         for e in place["proj"]:
             k = e["k"]
             if k == "deref":
@@ -441,7 +459,15 @@ class Frame:
         if k == "val":
             return lv[1]
         if k == "local":
-            return self.env.get(lv[1], ("uninit", lv[1]))
+            if self._fid_of(lv) == self.fid:
+                return self.env.get(lv[1], ("uninit", lv[1]))
+            # a local of an ancestor frame (reached through a reference passed to this inlined callee)
+            if lv in self.foreign_writes:
+                return self.foreign_writes[lv]
+            env = self.parent_view.get(self._fid_of(lv))
+            if env is None:
+                env = self.envs.get(self._fid_of(lv))
+            return env.get(lv[1], ("uninit", lv[1])) if env is not None else ("foreign", lv)
         if k == "lfield":
             return self.eng.project(self.read_lv(lv[1]), lv[2], lv[3], lv[4] if len(lv) > 4 else None)
         if k == "ldowncast":
@@ -481,7 +507,10 @@ class Frame:
     def write_lv(self, lv, val, path):
         k = lv[0]
         if k == "local":
-            self.env[lv[1]] = val
+            if self._fid_of(lv) == self.fid:
+                self.env[lv[1]] = val
+            else:
+                self.foreign_writes[lv] = val
             return
         if k in ("lfield",):
             base = self.read_lv(lv[1])
@@ -661,9 +690,9 @@ class Analysis:
         self.policy = policy or Policy()
         self.npaths = 0
 
-    def run(self, body, args=(), depth=0, init_env=None):
+    def run(self, body, args=(), depth=0, init_env=None, parent=None):
         self.eng.stats["bodies"] += 1
-        frame = Frame(self.eng, body, list(args), depth, self.policy)
+        frame = Frame(self.eng, body, list(args), depth, self.policy, parent)
         if init_env:
             frame.env.update(init_env)
         out = []
@@ -686,7 +715,7 @@ class Analysis:
                     if bb in frame.active_loops:
                         path.end = "continue"
                         path.loop_header = bb
-                        path.env = frame.env
+                        self._seal(path, frame)
                         out.append(path)
                         break
                     frame.active_loops = frame.active_loops + (bb,)
@@ -699,7 +728,7 @@ class Analysis:
                 for s in bl["stmts"]:
                     if s["k"] == "assign":
                         v = frame.rvalue(s["rv"], path)
-                        frame.write_lv(frame.lv_of(s["p"]) if s["p"]["proj"] else ("local", s["p"]["l"]), v, path)
+                        frame.write_lv(frame.lv_of(s["p"]) if s["p"]["proj"] else frame.loc(s["p"]["l"]), v, path)
                     elif s["k"] == "setdiscr":
                         pass
                 t = bl["term"]
@@ -713,8 +742,8 @@ class Analysis:
                 if k == "return":
                     path.end = "return"
                     path.ret = frame.env.get(0, ("unit",))
-                    path.env = frame.env
                     path.heap = frame.heap
+                    self._seal(path, frame)
                     out.append(path)
                     break
                 if k == "unreachable":
@@ -785,6 +814,13 @@ class Analysis:
                 break
 
     @staticmethod
+    def _seal(path, frame):
+        path.env = frame.env
+        path.fid = frame.fid
+        path.foreign_writes = frame.foreign_writes
+        path.envs = dict(frame.envs)
+
+    @staticmethod
     def _contradicts(path, g):
         d, (op, v) = g[0], g[1]
         for g0 in path.guards:
@@ -850,40 +886,39 @@ class Analysis:
         if target is not None and frame.depth < self.eng.max_depth and self.policy.inline(f, target, frame.depth):
             self.eng.stats["inlined"] += 1
             sub = Analysis(self.eng, self.policy)
-            outs = sub.run(target, args, frame.depth + 1)
+            outs = sub.run(target, args, frame.depth + 1, parent=frame)
             res = []
             for o in outs:
-                if o.end == "continue":
-                    # loop-iteration summary of the callee: keep as side info
-                    p2 = path.clone()
-                    p2.guards += o.guards
-                    p2.calls += o.calls
-                    p2.end = "continue"
-                    p2.loop_header = ("inl", target["path"], o.loop_header)
-                    p2.env = frame.env
-                    path.sub_continues = getattr(path, "sub_continues", []) + [p2]
-                    continue
                 p2 = path.clone()
-                if hasattr(path, "sub_continues"):
-                    p2.sub_continues = list(path.sub_continues)
-                base = len(p2.calls)
                 p2.guards += o.guards
                 for c in o.calls:
                     p2.calls.append(c)
                 p2.asserts += o.asserts
                 p2.loops += [("inl", target["path"], h) for h in o.loops]
                 f2 = frame.clone()
+                # the callee's environment stays addressable (its locals may occur in returned terms)
+                if getattr(o, "env", None) is not None:
+                    f2.envs[o.fid] = o.env
+                    f2.envs.update(getattr(o, "envs", {}))
+                # writes the callee made through references into this (or an outer) frame
+                for lv, val in getattr(o, "foreign_writes", {}).items():
+                    f2.write_lv(lv, val, p2)
                 for lv, val in o.stores:
-                    f2.write_lv(lv, val, p2) if lv[0] != "local" else None
+                    if lv[0] != "local":
+                        f2.write_lv(lv, val, p2)
                 if o.end == "return":
-                    ev2 = CallEvent(f, key, args, bb, t.get("line"))
-                    ev2.inlined = True
-                    ev2.result = o.ret
                     self._assign_dest(f2, t, o.ret, p2)
                     res.append((f2, p2))
+                elif o.end == "continue":
+                    # one iteration of a loop inside the inlined callee: an iteration summary of the caller too
+                    p2.end = "continue"
+                    p2.loop_header = ("inl", target["path"], o.loop_header)
+                    self._seal(p2, f2)
+                    res.append((None, p2))
                 else:
                     p2.end = o.end
                     p2.panic = o.panic
+                    self._seal(p2, f2)
                     res.append((None, p2))
             live = [(a, b) for a, b in res if a is not None]
             dead = [b for a, b in res if a is None]
@@ -902,7 +937,7 @@ class Analysis:
 
     def _assign_dest(self, frame, t, r, path):
         d = t["dest"]
-        frame.write_lv(frame.lv_of(d) if d["proj"] else ("local", d["l"]), r, path)
+        frame.write_lv(frame.lv_of(d) if d["proj"] else frame.loc(d["l"]), r, path)
 
     def _local_body(self, f):
         if "indirect" in f:
@@ -1035,7 +1070,7 @@ def _call_closure(an, frame, clo, args, path):
     env_arg = ("ref", False, ("val", clo)) if self_ty.startswith("&") else clo
     sub = Analysis(an.eng, an.policy)
     try:
-        outs = sub.run(body, [env_arg] + list(args), frame.depth + 1)
+        outs = sub.run(body, [env_arg] + list(args), frame.depth + 1, parent=frame)
     except Budget:
         return None
     if outs and all(o.end == "panic" for o in outs):
